@@ -30,12 +30,15 @@ pub struct IntCase {
     pub permitted: IvSet, // exact set permitted (root part)
     pub extensible: bool, // outermost constraint carries a marker
     pub ext_ambiguous: bool,
+    /// values the type must be able to hold when that is more than the root set: for `(A)(B, ...)` the extension
+    /// additions of the outer constraint range over the parent A (X.680 50.9), so the whole of A must fit
+    pub must_hold: Option<IvSet>,
     pub key: String,
 }
 
 fn range_case(lo: Option<i128>, hi: Option<i128>, ext: bool) -> IntCase {
     let text = format!("({}..{}{})", b2s(lo, true), b2s(hi, false), if ext { ", ..." } else { "" });
-    IntCase { key: text.clone(), text, permitted: IvSet::single(Iv::new(lo, hi)), extensible: ext, ext_ambiguous: false }
+    IntCase { key: text.clone(), text, permitted: IvSet::single(Iv::new(lo, hi)), extensible: ext, ext_ambiguous: false, must_hold: None }
 }
 
 /// resolve a type token to the underlying integer token (u8.. / Integer) through delegate newtypes
@@ -132,10 +135,11 @@ fn lit_fit(l: &syn::LitInt, neg: bool, ctx_ty: Option<&str>, out: &mut Vec<Strin
 fn judge_type(tok: &str, c: &IntCase) -> Vec<(String, String)> {
     let mut out = vec![];
     if let Some(r) = rust_int_range(tok) {
-        if !c.permitted.subset_of_iv(&r) {
-            out.push(("type-too-narrow".to_string(), format!("{tok} cannot hold {} of INTEGER {}", c.permitted.show(), c.text)));
+        let need = c.must_hold.as_ref().unwrap_or(&c.permitted);
+        if !need.subset_of_iv(&r) {
+            out.push(("type-too-narrow".to_string(), format!("{tok} cannot hold {} of INTEGER {}", need.show(), c.text)));
         }
-        let h = c.permitted.hull();
+        let h = need.hull();
         if h.is_some_and(|h| h.lo.is_none() || h.hi.is_none()) {
             out.push(("fixed-width-with-infinite-bound".to_string(), format!("{tok} for INTEGER {}", c.text)));
         }
@@ -331,7 +335,7 @@ fn random_case(rng: &mut Rng, pts: &[i128]) -> IntCase {
     if rng.chance(1, 8) {
         // marker written after a parenthesised element set: the whole constraint is extensible
         let text = format!("(({ta}), ...)");
-        return IntCase { key: text.clone(), text, permitted: IvSet::single(a), extensible: true, ext_ambiguous: false };
+        return IntCase { key: text.clone(), text, permitted: IvSet::single(a), extensible: true, ext_ambiguous: false, must_hold: None };
     }
     let (text, set, ext_amb) = match rng.below(3) {
         0 => (format!("({ta} | {tb}{e})"), IvSet::single(a).union(&IvSet::single(b)), false),
@@ -342,10 +346,15 @@ fn random_case(rng: &mut Rng, pts: &[i128]) -> IntCase {
             // marker on the parent is dropped by a further constraint; only "both carry a marker" is
             // unambiguously extensible-without-bound. Everything else is judged on containment only.
             let both = !e1.is_empty() && ext;
+            if e1.is_empty() && ext {
+                let text = format!("({ta})({tb}{e})");
+                let root = IvSet::single(a).intersect(&IvSet::single(b));
+                return IntCase { key: text.clone(), text, permitted: root, extensible: true, ext_ambiguous: true, must_hold: Some(IvSet::single(a)) };
+            }
             (format!("({ta}{e1})({tb}{e})"), IvSet::single(a).intersect(&IvSet::single(b)), !both)
         }
     };
-    IntCase { key: text.clone(), text, permitted: set, extensible: ext, ext_ambiguous: ext_amb }
+    IntCase { key: text.clone(), text, permitted: set, extensible: ext, ext_ambiguous: ext_amb, must_hold: None }
 }
 
 pub fn run(ctx: &Ctx) -> Report {
@@ -368,7 +377,7 @@ pub fn run(ctx: &Ctx) -> Report {
                 set = set.union(&IvSet::single(Iv::new(l.parse().ok(), h.parse().ok())));
             }
         }
-        cases.push(IntCase { key: text.clone(), text, permitted: set, extensible: c["extensible"].as_bool().unwrap_or(false), ext_ambiguous: false });
+        cases.push(IntCase { key: text.clone(), text, permitted: set, extensible: c["extensible"].as_bool().unwrap_or(false), ext_ambiguous: false, must_hold: None });
         check_batch(&cases, &mut rep);
         return rep;
     }
@@ -393,14 +402,14 @@ pub fn run(ctx: &Ctx) -> Report {
     for (i, a) in pts.iter().enumerate() {
         let b = pts[(i * 7 + 3) % pts.len()];
         let text = format!("{{ nqa({a}), nqb({b}) }}");
-        cases.push(IntCase { key: text.clone(), text, permitted: IvSet::single(Iv::new(None, None)), extensible: false, ext_ambiguous: false });
+        cases.push(IntCase { key: text.clone(), text, permitted: IvSet::single(Iv::new(None, None)), extensible: false, ext_ambiguous: false, must_hold: None });
         let (lo, hi) = if *a <= b { (*a, b) } else { (b, *a) };
         let text = format!("{{ nqa({a}), nqb({b}) }} ({lo}..{hi})");
-        cases.push(IntCase { key: text.clone(), text, permitted: IvSet::single(Iv::new(Some(lo), Some(hi))), extensible: false, ext_ambiguous: false });
+        cases.push(IntCase { key: text.clone(), text, permitted: IvSet::single(Iv::new(Some(lo), Some(hi))), extensible: false, ext_ambiguous: false, must_hold: None });
     }
     // a value reference as bound while an unrelated type has a named number of the same spelling
     for (text, lo, hi, ext) in [("(0..limq)", 0i128, 70000i128, false), ("(limq)", 70000, 70000, false), ("(-5..limq, ...)", -5, 70000, true), ("(limq..4294967296)", 70000, 4294967296, false)] {
-        cases.push(IntCase { key: text.to_string(), text: text.to_string(), permitted: IvSet::single(Iv::new(Some(lo), Some(hi))), extensible: ext, ext_ambiguous: false });
+        cases.push(IntCase { key: text.to_string(), text: text.to_string(), permitted: IvSet::single(Iv::new(Some(lo), Some(hi))), extensible: ext, ext_ambiguous: false, must_hold: None });
     }
     let nrand = ctx.pick(6_000u64, 60_000);
     for i in 0..nrand {
